@@ -186,8 +186,21 @@ package specs
 //@ assigns nothing
 
 // ---- libp2p ---------------------------------------------------------------------------------------
+// text form of a multiaddr; isRemoteText(s): s is the text of the remote end of a connection, optionally followed by
+// "/p2p/<peer id>" (what penalties and bans are addressed by)
+//@ spec maText(m multiaddr.Multiaddr) string
+//@ spec isRemoteText(s string) bool
 //@ iface github.com/libp2p/go-libp2p/core/network.ConnMultiaddrs.RemoteMultiaddr
 //@ pure
+//@ ensures[names-the-remote-end] isRemoteText(maText(result)) && forallT(y, string, isRemoteText(maText(result)+"/p2p/"+y))
+//@ iface github.com/libp2p/go-libp2p/core/network.ConnMultiaddrs.LocalMultiaddr
+//@ pure
+//@ iface github.com/multiformats/go-multiaddr.Multiaddr.String
+//@ pure
+//@ ensures result == maText(recv)
+//@ func github.com/multiformats/go-multiaddr.NewMultiaddr
+//@ assigns nothing
+//@ ensures result1 == nil ==> maText(result0) == s
 // RLocker(): a Locker whose Lock/Unlock are RLock/RUnlock of the same mutex
 //@ spec rlockerOf(l sync.Locker) *sync.RWMutex
 //@ func sync.(*RWMutex).RLocker
